@@ -3,6 +3,7 @@
 package c20
 
 import (
+	"bytes"
 	"errors"
 	"fmt"
 	"strings"
@@ -126,6 +127,20 @@ func execute(r *core.Run, c *Case) {
 		r.Inconclusive("could not create the starting envelope: " + err.Error())
 		return
 	}
+	// every byte string a successful Sign returned, with what it must keep saying
+	type kept struct {
+		raw, copy []byte
+		w         *envcmp.Want
+	}
+	var returned []kept
+	defer func() {
+		for _, k := range returned {
+			if !bytes.Equal(k.raw, k.copy) {
+				r.Violation("returned-bytes-changed-later:"+mtName(mt), c.desc()+": bytes returned by an earlier successful Sign were modified by later operations on the object", c)
+				return
+			}
+		}
+	}()
 	var tamperedContent *signature.EnvelopeContent
 	var tamperedErr, tamperedSeen bool
 	fail := func(i int, sig, what string) {
@@ -178,6 +193,7 @@ func execute(r *core.Run, c *Case) {
 				return
 			}
 			states = []state{{w: w, name: "Holds(" + tag + ")"}}
+			returned = append(returned, kept{raw, append([]byte{}, raw...), w})
 			r.Count("ok-sign", 1)
 		case "signEarlyFail", "signLateFail":
 			var req *signature.SignRequest
@@ -325,7 +341,7 @@ func run(r *core.Run) int {
 	r.Set("max_history_length", depth)
 	r.Set("histories", len(cases))
 	r.Exhaustive(true)
-	core.Parallel(len(cases), func(i int) {
+	r.Parallel(len(cases), func(i int) {
 		c := cases[i]
 		execute(r, c)
 		signed := false
